@@ -7,6 +7,11 @@ pub struct Literal { pub lbl: VarLabel, pub pol: bool }
 
 impl Literal {
     #[verifier::external_body]
+    pub fn new(label: VarLabel, polarity: bool) -> (r: Literal)
+        ensures r.lbl == label, r.pol == polarity,
+    { unimplemented!() }
+
+    #[verifier::external_body]
     pub fn label(&self) -> (r: VarLabel)
         ensures r == self.lbl,
     { unimplemented!() }
